@@ -284,3 +284,91 @@ func (c *Conn) LogTaps(name string) {
 		vrt.Logf("tap %s in  step=%d %v payload=%x", name, f.Step, f.Hdr, f.Payload)
 	}
 }
+
+// Backlog is a scenario shared by C04, C12 and C16: an object is kept busy in
+// a gated slow() call while one connection pipelines a terminate() of that
+// object followed by more calls than its mailbox holds, and a second
+// connection adds one more call; then the gate opens. Every call must get
+// exactly one answer, the object must be terminated exactly once, the other
+// objects must keep answering and nothing may dead lock.
+func Backlog(nCalls int) func() {
+	return func() {
+		w := Start(bus.Yes{})
+		c := w.MustConnect()
+		root := c.Probe(1)
+		pa, err := root.Spawn()
+		pb, err2 := root.Spawn()
+		if err != nil || err2 != nil {
+			vrt.Failf("harness/spawn", "%v %v", err, err2)
+			return
+		}
+		a, b := w.Root.Children[0], w.Root.Children[1]
+		aID := pa.Proxy().ObjectID()
+		a.Gate = make(chan struct{})
+		vrt.GoNamed("slow-caller", func() { pa.Slow(1) })
+		vrt.Quiesce()
+		h := w.RawPeer()
+		h.StartDrain()
+		if !h.Authenticate("", "") {
+			vrt.Failf("harness/auth", "raw peer could not authenticate")
+			return
+		}
+		h2 := w.RawPeer()
+		h2.StartDrain()
+		h2.Authenticate("", "")
+		vrt.Explore()
+		var ids []uint32
+		termID := h.NextID()
+		var tp bytes.Buffer
+		basic.WriteUint32(aID, &tp)
+		h.Send(net.Call, w.ServiceID, aID, 3, termID, tp.Bytes())
+		for i := 0; i < nCalls; i++ {
+			id := h.NextID()
+			ids = append(ids, id)
+			h.Send(net.Call, w.ServiceID, aID, 100, id, Int32(int32(i)))
+		}
+		id2 := h2.NextID()
+		h2.Send(net.Call, w.ServiceID, aID, 100, id2, Int32(77))
+		vrt.Quiesce()
+		rel := vrt.GoWorker("releaser", func() { close(a.Gate) })
+		vrt.Quiesce()
+		Settle(rel)
+		unanswered, twice := 0, 0
+		for _, id := range append(ids, termID) {
+			switch n := len(h.Replies(id)); {
+			case n == 0:
+				unanswered++
+			case n > 1:
+				twice++
+			}
+		}
+		if n := len(h2.Replies(id2)); n != 1 {
+			vrt.Failf("backlog/call-answer-count/second-connection", "the call of the second connection queued behind a full mailbox got %d answers", n)
+		}
+		if unanswered > 0 {
+			vrt.Failf("backlog/call-never-answered", "%d of %d pipelined requests to a busy object were never answered", unanswered, nCalls+1)
+		}
+		if twice > 0 {
+			vrt.Failf("backlog/call-answered-twice", "%d requests were answered more than once", twice)
+		}
+		if a.Terminated != 1 {
+			vrt.Failf("backlog/terminate-hook-count", "terminate() queued behind a backlog: termination hook ran %d times", a.Terminated)
+		}
+		for k, n := range a.Calls {
+			if n > 1 {
+				vrt.Failf("backlog/executed-twice", "%s ran %d times", k, n)
+			}
+		}
+		if v, err := pb.Echo(5); err != nil || v != probe.EchoResult(5) {
+			vrt.Failf("backlog/other-object-affected", "another object of the service stopped answering: %v", err)
+		}
+		if v, err := root.Echo(6); err != nil || v != probe.EchoResult(6) {
+			vrt.Failf("backlog/other-object-affected", "the service object stopped answering: %v", err)
+		}
+		if b.Terminated != 0 {
+			vrt.Failf("backlog/other-object-terminated", "another object was terminated")
+		}
+		Settle()
+		vrt.Observe("answered=%d/%d terminated=%d", nCalls+1-unanswered, nCalls+1, a.Terminated)
+	}
+}
